@@ -141,7 +141,7 @@ func vRunSched(t *testing.T, prop string, profile vProfile, nQuick, nThorough in
 				rep.Inconclusive(fmt.Sprintf("history %d: %s", i, out.Inconcl))
 				// the history did not come to an end, but what its event log shows did happen (the snapshot is taken
 				// before the world is torn down): safety clauses over the recorded order are still decided
-				if prop == "C01" {
+				if prop == "C01" || prop == "C02" { // (C02: only its safety clause - a second reply - is evaluated when the outcome is not "stuck")
 					for _, v := range check(h, out) {
 						rep.Violate(v.Sig+":history-did-not-end", v.What+" (the history then neither ended nor came to rest within the watchdog: "+out.Inconcl[:min(len(out.Inconcl), 300)]+")", h, map[string]any{"events": v.Events})
 					}
